@@ -958,6 +958,17 @@ func (cx *evalCtx) call(x *ast.CallExpr) (TV, error) {
 			}
 			mi := r.mapHeaps(cx.st, mt)
 			return TV{and(not(eq(as[0].S, "0")), app("select", app("select", mi.dom, as[0].S), as[1].S)), SBool, types.Typ[types.Bool]}, nil
+		case "allocated":
+			// allocated(x): the object x exists at this point (it is not one that will be allocated later)
+			as, err := cx.args(x.Args)
+			if err != nil {
+				return TV{}, err
+			}
+			ref := as[0].S
+			if as[0].Sort == SSlice {
+				ref = app("s_arr", ref)
+			}
+			return TV{app("<", app("refbase", ref), cx.st.frontier), SBool, types.Typ[types.Bool]}, nil
 		case "ctxDone":
 			// ctxDone(ctx): ghost - a receive from ctx.Done() has been selected (the function has observed the end of ctx)
 			as, err := cx.args(x.Args)
